@@ -1089,7 +1089,7 @@ impl<'a> Visitor<'a> {
         Ok(None)
     }
 
-    fn trim_included(&self, nodes: &[CssTreeIdx]) -> CssTreeIdx {
+    fn trim_included(&self, nodes: &mut Vec<CssTreeIdx>) -> CssTreeIdx {
         if nodes.is_empty() {
             return CssTree::ROOT;
         }
@@ -1127,7 +1127,10 @@ impl<'a> Visitor<'a> {
             return CssTree::ROOT;
         }
 
-        nodes[innermost_contiguous.unwrap()]
+        let i = innermost_contiguous.unwrap();
+        let root = nodes[i];
+        nodes.truncate(i);
+        root
     }
 
     fn visit_at_root_rule(&mut self, mut at_root_rule: AstAtRootRule) -> SassResult<Option<Value>> {
@@ -1163,7 +1166,7 @@ impl<'a> Visitor<'a> {
             current_parent_idx = grandparent_idx;
         }
 
-        let root = self.trim_included(&included);
+        let root = self.trim_included(&mut included);
 
         // If we didn't exclude any rules, we don't need to use the copies we might
         // have created.
@@ -1179,36 +1182,18 @@ impl<'a> Visitor<'a> {
             return Ok(None);
         }
 
-        let inner_copy = if !included.is_empty() {
-            let inner_copy = self
-                .css_tree
-                .get(*included.first().unwrap())
-                .as_ref()
-                .map(CssStmt::copy_without_children);
-            let mut outer_copy = self.css_tree.add_stmt(inner_copy.unwrap(), None);
-
-            for node in &included[1..] {
+        let inner_copy = {
+            let mut p = root;
+            for node in included.iter().rev() {
                 let copy = self
                     .css_tree
                     .get(*node)
                     .as_ref()
                     .map(CssStmt::copy_without_children)
                     .unwrap();
-
-                let copy_idx = self.css_tree.add_stmt(copy, None);
-                self.css_tree.link_child_to_parent(outer_copy, copy_idx);
-
-                outer_copy = copy_idx;
+                p = self.css_tree.add_child(copy, p);
             }
-
-            Some(outer_copy)
-        } else {
-            let inner_copy = self
-                .css_tree
-                .get(root)
-                .as_ref()
-                .map(CssStmt::copy_without_children);
-            inner_copy.map(|p| self.css_tree.add_stmt(p, None))
+            Some(p)
         };
 
         let body = mem::take(&mut at_root_rule.body);
